@@ -765,10 +765,27 @@ func (e *Eng) applyContract(con *Contract, fi *FuncInfo, name string, recv *Val,
 	for _, it := range con.Assigns {
 		e.havocItem(it, con, fi, env, c)
 	}
+	// ghost variables declared inside the callee's contract are private to one
+	// activation of the callee: clauses about them say nothing to a caller
+	local := map[string]bool{}
+	for _, g := range con.Ghosts {
+		local[g.Name] = true
+	}
+	mentionsLocal := func(src string) bool {
+		for g := range local {
+			if containsWord(src, g) {
+				return true
+			}
+		}
+		return false
+	}
 	// ghost state that the postconditions speak about is changed by the callee
 	for _, g := range sortedKeys(c.st.ghost) {
 		if con.Extern {
 			break // assumed contracts only read ghost state; hooks are what change it
+		}
+		if local[g] {
+			continue
 		}
 		for _, en := range con.Ensures {
 			if containsWord(en.Src, g) {
@@ -814,6 +831,9 @@ func (e *Eng) applyContract(con *Contract, fi *FuncInfo, name string, recv *Val,
 	for k, en := range con.Ensures {
 		if fi != nil && e.u.knownFailing[funcLabel(fi)+"/"+e.clauseName("ensures", k, en)] {
 			continue // a postcondition recorded as a known finding does not hold: callers must not rely on it
+		}
+		if mentionsLocal(en.Src) {
+			continue
 		}
 		e.assumeGen(c, e.specBool(en.Expr, post))
 	}
